@@ -218,7 +218,7 @@ func annotRecipe(g *Gen) *R {
 // hiddenCases: barrier / secondary / mark nodes at any depth whose hidden sub-trees carry
 // hints, domains, assertion flags, codes, keys and sentinels.
 func hiddenCases(g *Gen, n int) []*Case {
-	carriers := []string{"handled", "handled", "secondary", "combine", "mark", "handleasassertion", "newassertionwrapped"}
+	carriers := []string{"handled", "handled", "handledindomain", "secondary", "combine", "mark", "handleasassertion", "newassertionwrapped"}
 	rich := []string{"hint", "detail", "domain", "assertion", "http", "grpc", "telemetry", "issuelink", "tags", "wrap", "mark", "secondary", "handled"}
 	var cases []*Case
 	for i := 0; i < n; i++ {
